@@ -78,6 +78,8 @@ struct Case {
     int s_bos;        /* 0 unknown, 1 known = object bytes */
     long c, k;        /* char / count arguments */
     int o_null;       /* out-parameter passed as NULL */
+    int alias;        /* the src argument is the dest pointer itself (same object) */
+    int s_off;        /* source placed s_off bytes before the flush position (alignment sweep) */
     unsigned char dx[24], sx[24];
     int dxn, sxn;
 };
